@@ -104,4 +104,12 @@ var Props = map[string]*PropCfg{
 		MasksPer:  map[string]int{"quick": 4, "thorough": 32},
 		Assume:    codecAssume, RealStub: stdRealStub(),
 	},
+	"C20": {
+		ID: "C20", Level: "fault_enumeration", NoProgs: true,
+		Rule: "no generated code: sequences of typed iohelp primitive writes through an ErrorWriter onto the simulated link and typed reads through an ErrorReader, plus the *Bytes variants on exact-width guard-paged slices. Fault-free part: all 2^16 values of uint16/int16 and all values of bool/byte/uint8 exhaustively, boundary+random values of the wider types, GUIDs, dates, strings; stream bytes == slice bytes == reference layout; stream and slice readers invert the writers under drawn chunk schedules and reader kinds; ReadStringBytes[SharedMemory] on every buffer length 0..4+len+1. Fault part: for a multi-primitive stream whose every wire byte is from a taint alphabet, EVERY byte offset is failed (EOF; error bare/partial under a chunk schedule; transient); oracle: ErrorReader.Err set by the read that needed the missing byte, and no value returned by that read or any later one contains a tainted byte it was not delivered (bool: not true; string: empty unless its prefix arrived); " +
+			"distinct_nontrivial counts distinct (primitive the fault landed in, fault kind, offset inside the primitive) triples plus distinct fault-free stream shapes",
+		Runs:     map[string]int{"quick": 4000, "thorough": 60000},
+		Assume:   []string{"reference layout from /verif/pkg/refcodec", "dates restricted to the range int64 nanoseconds represent"},
+		RealStub: map[string][]string{"real": {"iohelp runtime of the working tree (instrumented for allocation/step accounting only)"}, "stub": {"the byte stream: simnet link with chunk schedule and fault trace", "reference layout"}},
+	},
 }
